@@ -46,6 +46,10 @@ func (f *Frame) execInstr(ins ssa.Instruction, st *State) {
 		et := x.Type().(*types.Pointer).Elem()
 		ref := u.newRef(st, x.Name())
 		p := &V{Typ: x.Type(), T: ref}
+		if !x.Heap {
+			// a local variable that does not escape: nobody else can write it
+			u.localRefs = append(u.localRefs, ref)
+		}
 		if at, ok := et.Underlying().(*types.Array); ok && !isTime(et) {
 			u.zeroElems(st, at.Elem(), ref)
 		} else {
@@ -144,6 +148,10 @@ func (f *Frame) execInstr(ins ssa.Instruction, st *State) {
 		f.store(st, p, f.val(x.Val))
 	case *ssa.MapUpdate:
 		m := f.val(x.Map)
+		if path := ssaPath(x.Map); path != "" {
+			f.curCallArgs = []*V{f.val(x.Key), f.val(x.Value)}
+			f.anchorsAt("mapupdate", path, st)
+		}
 		mk := u.mapKeysOf(m.Typ)
 		f.nopanic(st, "nil-map-write", x.Pos(), not(eq(m.T, intLit(0))), "assignment to entry in non-nil map")
 		u.mapSet(st, mk, m.T, u.keyTerm(f.val(x.Key)), f.val(x.Value))
@@ -717,4 +725,24 @@ func describeCall(c *ssa.CallCommon) string {
 		return ShortName(sc)
 	}
 	return strings.TrimSpace(c.Value.Name())
+}
+
+// ssaPath names simple access paths: parameter, parameter.field, parameter.field.field.
+func ssaPath(v ssa.Value) string {
+	switch x := v.(type) {
+	case *ssa.Parameter:
+		return x.Name()
+	case *ssa.UnOp:
+		if x.Op.String() == "*" {
+			return ssaPath(x.X)
+		}
+	case *ssa.FieldAddr:
+		b := ssaPath(x.X)
+		if b == "" {
+			return ""
+		}
+		st := x.X.Type().Underlying().(*types.Pointer).Elem().Underlying().(*types.Struct)
+		return b + "." + st.Field(x.Field).Name()
+	}
+	return ""
 }
